@@ -52,6 +52,10 @@ pub enum Gap {
         max_ms: u64,
         #[serde(default)]
         hold: u32,
+        /// when the event happened, jump the clock by this much at once: timers expire while the
+        /// triggering task is held back inside its critical section
+        #[serde(default)]
+        advance_ms: u64,
     },
 }
 
@@ -364,7 +368,7 @@ pub fn profile(prop: &str) -> Profile {
 
 fn gen_gap(r: &mut Rng, p: &Profile, interval: u64) -> Gap {
     if p.trace_triggers > 0 && r.below(1000) < p.trace_triggers as u64 {
-        return Gap::Until { what: r.usize_below(crate::controller::TRIGGERS.len()), max_ms: *r.pick(&[20, 600, 2500]), hold: *r.pick(&[0, 0, 1, 2, 3]) };
+        return Gap::Until { what: r.usize_below(crate::controller::TRIGGERS.len()), max_ms: *r.pick(&[20, 600, 2500]), hold: *r.pick(&[0, 0, 1, 2, 3]), advance_ms: *r.pick(&[0, 0, 0, 500, 2000]) };
     }
     match r.weighted(&p.g) {
         0 => Gap::Zero,
@@ -498,7 +502,7 @@ pub fn generate(prop: &str, seed: u64) -> RunSpec {
             }
             let base = if emmyrc { 2000u64 } else { 0 };
             let gap = match r.below(9) {
-                7 | 8 => Gap::Until { what: *r.pick(&[0, 0, 1, 2, 3, 10]), max_ms: base + 3000, hold: *r.pick(&[0, 1, 2, 3]) },
+                7 | 8 => Gap::Until { what: *r.pick(&[0, 0, 1, 2, 3, 10]), max_ms: base + 3000, hold: *r.pick(&[0, 1, 2, 3]), advance_ms: 0 },
                 0 => Gap::SleepMs(base + 1),
                 1 => Gap::SleepMs(base + r.range(2, 40)),
                 2 => Gap::SleepMs(base + r.range(40, 300)),
@@ -659,7 +663,7 @@ pub fn generate(prop: &str, seed: u64) -> RunSpec {
         if let (Some(id), true) = (requested_id, p.w_cancel > 0) {
             if r.chance(1, 6) {
                 script.push(Step {
-                    gap: Gap::Until { what: *r.pick(&[9, 11, 12, 12]), max_ms: *r.pick(&[50, 700]), hold: *r.pick(&[0, 1, 2]) },
+                    gap: Gap::Until { what: *r.pick(&[9, 11, 12, 12]), max_ms: *r.pick(&[50, 700]), hold: *r.pick(&[0, 1, 2]), advance_ms: 0 },
                     action: Action::Cancel { id },
                 });
             }
@@ -689,10 +693,43 @@ pub fn generate(prop: &str, seed: u64) -> RunSpec {
                 };
                 // a third of the races wait for the debounced task itself (it fires, takes the token
                 // table, waits for / releases the analysis read lock) instead of the wall-clock offset
-                let gap = if r.chance(1, 3) { Gap::Until { what: *r.pick(&[8, 9, 11]), max_ms: interval + 50, hold: *r.pick(&[0, 1, 2]) } } else { Gap::SleepMs(at) };
+                let gap = if r.chance(1, 3) { Gap::Until { what: *r.pick(&[8, 9, 11]), max_ms: interval + 50, hold: *r.pick(&[0, 1, 2]), advance_ms: 0 } } else { Gap::SleepMs(at) };
                 script.push(Step { gap, action });
                 if r.chance(1, 2) {
                     frozen[d] = true;
+                }
+            }
+        }
+        // The debounce timer of the document just edited expires while another handler is held
+        // back inside its critical section (it holds the analysis write lock and is about to take
+        // the next lock): an external write to another file is reported by the watcher, and the
+        // moment that handler has the write lock the clock jumps past the interval.
+        if let (true, Some(d)) = (p.timer_races, edited_doc) {
+            if open[d] && ndocs >= 2 && r.chance(1, 6) {
+                let other = (d + 1 + r.usize_below(ndocs - 1)) % ndocs;
+                if docs[other].in_workspace {
+                    ver[other] += 1;
+                    disk[other] = true;
+                    script.push(Step { gap: Gap::Zero, action: Action::DiskWrite { doc: other, text: doc_text(other, ver[other], r.below(p.flavours) as u32) } });
+                    script.push(Step { gap: Gap::SleepMs(r.range(1, interval.max(2) / 2 + 1)), action: Action::Watch { n: 4, dup: false, reverse: false } });
+                    // ... and what the client sends in that moment: nothing of interest, the close
+                    // of the edited document, or its next edit (the expired task is queued on the
+                    // analysis lock behind the held-back writer, the main loop queues behind it)
+                    let action = match r.below(3) {
+                        0 => Action::MiscNotification { kind: 1 },
+                        1 => {
+                            open[d] = false;
+                            Action::Close { doc: d }
+                        }
+                        _ => {
+                            ver[d] += 1;
+                            Action::Change { doc: d, text: doc_text(d, ver[d], r.below(p.flavours) as u32) }
+                        }
+                    };
+                    script.push(Step { gap: Gap::Until { what: 6, max_ms: 300, hold: *r.pick(&[1, 2, 3]), advance_ms: interval + r.below(3) }, action });
+                    if r.chance(1, 2) {
+                        frozen[d] = true;
+                    }
                 }
             }
         }
@@ -730,7 +767,7 @@ pub fn generate(prop: &str, seed: u64) -> RunSpec {
                 let gap = if first {
                     first = false;
                     match r.below(9) {
-                        6 | 7 | 8 => Gap::Until { what: *r.pick(&[0, 0, 1, 2, 3, 10]), max_ms: base + 3000, hold: *r.pick(&[0, 1, 2, 3]) },
+                        6 | 7 | 8 => Gap::Until { what: *r.pick(&[0, 0, 1, 2, 3, 10]), max_ms: base + 3000, hold: *r.pick(&[0, 1, 2, 3]), advance_ms: 0 },
                         0 => Gap::SleepMs(base.saturating_sub(1).max(1)),
                         1 => Gap::SleepMs(base + 1),
                         2 => Gap::SleepMs(base + r.range(1, 60)),
@@ -743,7 +780,7 @@ pub fn generate(prop: &str, seed: u64) -> RunSpec {
                         0 => Gap::Zero,
                         1 => Gap::Yield(r.range(1, 6) as u32),
                         2 => Gap::SleepMs(r.range(1, 60)),
-                        3 => Gap::Until { what: *r.pick(&[0, 1, 2, 3, 10]), max_ms: 1500, hold: *r.pick(&[0, 1, 2]) },
+                        3 => Gap::Until { what: *r.pick(&[0, 1, 2, 3, 10]), max_ms: 1500, hold: *r.pick(&[0, 1, 2]), advance_ms: 0 },
                         _ => Gap::SleepMs(r.range(100, 1500)),
                     }
                 };
